@@ -7,6 +7,9 @@ d=$1; orig=$2
 wt=/tmp/wt-confirm
 [ -d $wt ] || git -C /repo worktree add --detach $wt HEAD -q
 cd $wt && git checkout -q -- . && git clean -fdq -e target
+# the seed was made against the /repo head of its time: use the newest head it applies to (current head first)
+git checkout -q --detach $(git -C /repo rev-parse HEAD)
+git apply --check $d/patch.diff 2>/dev/null || git checkout -q --detach ${SEED_BASE:-2f6e929}
 export CARGO_TARGET_DIR=$wt/target CARGO_NET_OFFLINE=true
 git apply $d/patch.diff || { echo "CONFIRM patch-does-not-apply"; exit 1; }
 cargo test --workspace --offline > /tmp/confirm-tests.log 2>&1
